@@ -12,7 +12,7 @@ THEOREMS = {
         "extractor_recognised_everything", "generic_shape_inst", "handler_shape_inst", "semanticSubset_inst", "branchesComplete_inst", "copyTotal_inst", "helpers_allocate_inst",
         "schemaCopyOK_inst",
         # current code: the full statement, both halves
-        "c11_copy", "c11_copy_total", "copy_total", "c11_walk", "c11",
+        "c11_copy", "c11_copy_total", "copy_total", "typesHandled_inst", "schema_typed_allHandled", "c11_copy_welltyped", "c11_walk", "c11",
         # the old copy table (errors copied by assignment), as a named constant: refutation, partial, repaired
         "schemaCopyOK_old_fails", "c11_copy_full_refuted_old", "schemaCopyOK_partial_old", "c11_copy_partial_old",
         "schemaCopyOK_fixed_old", "c11_copy_fixed_old",
@@ -23,8 +23,9 @@ THEOREMS = {
 CLAUSES = {
     "copy is structurally equal to the original":
         "c11_copy / c11_copy_total (= copy_equal_and_fresh + schemaCopyOK_inst by decide +kernel on the regenerated copy table): erase(copy v) = erase v for every value v. "
-        "Hypothesis of c11_copy_total: allHandled tables v (every node of v has a type and shape Copy has a case for, no typed-nil pointer) - a condition on the value alone; "
-        "copy_never_panics turns it into 'Copy does not panic'. copyTotal_inst (decide): every node type of the schema and the static type of every deeply copied field has a case.",
+        "Hypothesis of c11_copy_welltyped: wellTyped tables v - the value is well-typed against the extracted schema (each position holds nil, a scalar, a node of exactly the static type, or in "
+        "interface positions a node of any schema node type; element types of slices/maps included) and contains no typed-nil pointer. schema_typed_allHandled + typesHandled_inst (decide) reduce "
+        "this to allHandled (every node has a Copy case), copy_never_panics to 'Copy does not panic'. The harness checks welltyped=1 by reflection on every real model and the model must compute the same.",
     "copy shares no mutable part (later changes to either side invisible in the other)":
         "same theorems, second half: no address in mutAddrs(copy v) occurs in v. Every slice / map / struct pointer carries an address, also EMPTY slices (backing arrays at len 0). "
         "'Mutable' excludes only value fields, opaque any payloads and frozen scalar slices (none is frozen in the current tables). Hypotheses: allHandled v; the allocator hands out "
@@ -112,7 +113,7 @@ def impl_view(impl):
     if not impl.startswith("ok "):
         return impl
     parts = impl.split(" | sexp=", 1)[0].split(" | ")
-    return " | ".join([" ".join(parts[0].split()[:3])] + parts[1:])
+    return " | ".join([" ".join(parts[0].split()[:3] + ["welltyped=%s" % (_field(parts[0], "welltyped") or "?")])] + parts[1:])
 
 
 def _walks(impl):
